@@ -31,7 +31,7 @@ ASSUMPTIONS = ["the behaviour/default tables re-stated here are the documented o
 MONITORS = ["policy_outcome", "first_offender_named", "unmodified", "second_call_same", "roundtrip_sm_ssc_sm"]
 REQUIRED = ["returned", "InvalidPropertyException", "NotImplementedError", "partial_mapping", "default_with_blanks",
             "value_differs_from_default_only_by_inner_blanks_or_case", "default_padded_with_a_non_ascii_or_rare_blank",
-            "template_is_an_instance_of_a_subclass",
+            "template_is_an_instance_of_a_subclass", "template_with_legacy_alias_keys",
             "nonempty_default_value", "two_offenders_table_order_differs", "template_with_charts", "chart_offender",
             "copy_anyway_simfile_level", "error_behaviour", "template_empty", "chart_property_after_notes",
             "custom_key_resembling_a_table_entry"]
@@ -89,7 +89,7 @@ def state_value(rng, key, state):
         return rng.choice(["4.000=1.000", "4.000=1.000", "16.000=0.000", "8.000=0.000,\n24.000=0.000", "0.000=0.500,4.000=2.000"])
     if key == "VERSION":
         return rng.choice(["0.83", "0.7"])
-    return rng.choice(["0.000=2", "custom value", "8.000=1.000", "x.png"])
+    return rng.choice(["0.000=2", "custom value", "8.000=1.000", "x.png", "jacket {final}.png", "{}", "{0}", "100%s", "a}b{"])
 
 
 def gen_source(rng, small=False):
@@ -149,7 +149,7 @@ def cases(ctx):
     n = ctx.split(4000 if quick else 16 * 30000)
     for i in range(n):
         yield {"kind": "one", "source": gen_source(rng), "mapping": gen_mapping(rng),
-               "template": rng.choice(["none", "none", "blank", "sparse", "with_charts", "empty", "subclass"]),
+               "template": rng.choice(["none", "none", "blank", "sparse", "with_charts", "empty", "subclass", "legacy_alias"]),
                "chart_template": rng.choice(["none", "none", "blank", "custom", "subclass"])}
     # all 4^5 mappings on small simfiles
     smalls = ctx.split(2 if quick else 64)
@@ -237,6 +237,9 @@ def templates(case):
         st.charts.append(c)
     elif t == "empty":
         st = SMSimfile(string="")
+    elif t == "legacy_alias":
+        # as loaded from an old .sm file: stops under FREEZES, background changes under ANIMATIONS, neither standard key
+        st = SMSimfile(string="#TITLE:tpl;\n#FREEZES:1.000=2.000;\n#ANIMATIONS:0.000=old.avi=1.000=1=0=0;\n")
     elif t == "subclass":
         # an instance of the caller's own subclass of SMSimfile: an SM simfile like any other
         st = type("MySMSimfile", (SMSimfile,), {})(string="#TITLE:tpl;\n#TPLKEY:kept;\n")
@@ -354,6 +357,8 @@ def observe(ctx, source, mapping, case):
         ctx.feat("template_with_charts")
     if case.get("template") == "empty":
         ctx.feat("template_empty")
+    if case.get("template") == "legacy_alias":
+        ctx.feat("template_with_legacy_alias_keys")
     if case.get("template") == "subclass" or case.get("chart_template") == "subclass":
         ctx.feat("template_is_an_instance_of_a_subclass")
     if any(its and its[-1][0] != "NOTES" and any(k == "NOTES" for k, _ in its) for its in source["charts"]):
